@@ -803,9 +803,9 @@ static double get_entropy(const double temperature, const double f,
     if (classical) {
         return KB - KB * log(f / (KB * temperature));
     } else {
-        val = f / (2 * KB * temperature);
-        return 1 / (2 * temperature) * f * cosh(val) / sinh(val) -
-               KB * log(2 * sinh(val));
+        /* x/(e^x - 1) - log(1 - e^-x): finite for any x = f / kT */
+        val = f / (KB * temperature);
+        return KB * (val * exp(-val) / (-expm1(-val)) - log(-expm1(-val)));
     }
 }
 
@@ -818,9 +818,10 @@ static double get_heat_capacity(const double temperature, const double f,
     if (classical) {
         return KB;
     } else {
+        /* x^2 e^-x / (1 - e^-x)^2: finite for any x = f / kT */
         val = f / (KB * temperature);
-        val1 = exp(val);
-        val2 = (val) / (val1 - 1);
+        val1 = exp(-val);
+        val2 = val / expm1(-val);
         return KB * val1 * val2 * val2;
     }
 }
